@@ -378,6 +378,22 @@ impl<'r, 'b> PeekRr<'r, 'b> {
         ))
     }
 
+    /// Returns the raw 32-bit value of the resource record's TTL
+    /// field, without the [RFC 2181 § 8] interpretation applied by
+    /// [`PeekRr::ttl`]. Pseudo-RRs such as OPT ([RFC 6891 § 6.1.3])
+    /// assign a different meaning to this field, so it must not be
+    /// read as a TTL for them.
+    ///
+    /// [RFC 2181 § 8]: https://datatracker.ietf.org/doc/html/rfc2181#section-8
+    /// [RFC 6891 § 6.1.3]: https://datatracker.ietf.org/doc/html/rfc6891#section-6.1.3
+    pub fn raw_ttl(&self) -> u32 {
+        u32::from_be_bytes(
+            self.reader.octets[self.owner_end + 4..self.owner_end + 8]
+                .try_into()
+                .unwrap(),
+        )
+    }
+
     /// Returns the resource record's RDLENGTH field.
     pub fn rdlength(&self) -> u16 {
         u16::from_be_bytes(
